@@ -687,7 +687,7 @@ func Index(s, substr string) int {
 			n0 = sz // The rune we matched on might not be the same size as c0
 		}
 
-		if i+n0 >= t {
+		if i+n0 >= len(s) {
 			return -1
 		}
 
